@@ -87,3 +87,110 @@ func runR17_8(c *kit.Ctx) {
 	c.Floor("R17.8", "dial results stored into connection variables in package btconn", n, 2)
 	_ = types.Typ
 }
+
+// R17.9 every dialled socket has a cleanup for the error exits (third seeding
+// round: the deferred close-on-error closure of the second, plain-text socket
+// of btconn.Dial was removed; when the plain handshake fails too, nobody closes
+// that socket).
+//
+// Per connection cell of package btconn: after a dial result is stored, on
+// every path to a return the socket was closed explicitly or a deferred call
+// was registered that closes the value loaded from the cell at that point
+// (`defer func(conn net.Conn){ if err != nil { conn.Close() } }(conn)`).
+
+func init() { registerExtra("C17", runR17_9) }
+
+func runR17_9(c *kit.Ctx) {
+	k := newKeyer()
+	isDialResult := func(v ssa.Value) bool {
+		ex, ok := v.(*ssa.Extract)
+		if !ok || ex.Index != 0 {
+			return false
+		}
+		call, ok := ex.Tuple.(*ssa.Call)
+		if !ok {
+			return false
+		}
+		f := call.Call.StaticCallee()
+		return f != nil && f.Pkg != nil && f.Pkg.Pkg.Path() == "net" && strings.HasPrefix(f.Name(), "Dial")
+	}
+	closesParam := func(g *ssa.Function, idx int) bool {
+		if g == nil || idx >= len(g.Params) {
+			return false
+		}
+		hit := false
+		kit.Instrs(g, func(ins ssa.Instruction) {
+			if cc := kit.CallOf(ins); cc != nil && cc.IsInvoke() && cc.Method.Name() == "Close" && cc.Value == ssa.Value(g.Params[idx]) {
+				hit = true
+			}
+		})
+		return hit
+	}
+	n := 0
+	for _, fn := range c.ModuleFunctions() {
+		if !inPkg(fn, c, "internal/btconn") || fn.Blocks == nil {
+			continue
+		}
+		cells := map[ssa.Value]bool{}
+		kit.Instrs(fn, func(ins ssa.Instruction) {
+			if st, ok := ins.(*ssa.Store); ok && isDialResult(st.Val) {
+				cells[st.Addr] = true
+			}
+		})
+		for cell := range cells {
+			cell := cell
+			fromCell := func(v ssa.Value) bool {
+				ld, ok := v.(*ssa.UnOp)
+				return ok && ld.Op == token.MUL && ld.X == cell
+			}
+			covered := (&kit.Flow{P: c.Prog, Fn: fn, Entry: true, Instr: func(ins ssa.Instruction, in bool) bool {
+				if st, ok := ins.(*ssa.Store); ok && st.Addr == cell && isDialResult(st.Val) {
+					return false
+				}
+				if d, isDefer := ins.(*ssa.Defer); isDefer {
+					cc := d.Common()
+					var g *ssa.Function
+					if mc, ok := cc.Value.(*ssa.MakeClosure); ok {
+						g, _ = mc.Fn.(*ssa.Function)
+					} else if f, ok := cc.Value.(*ssa.Function); ok {
+						g = f
+					}
+					for i, a := range cc.Args {
+						if fromCell(a) && closesParam(g, i) {
+							return true
+						}
+					}
+					return in
+				}
+				if cc := kit.CallOf(ins); cc != nil && cc.IsInvoke() && cc.Method.Name() == "Close" && fromCell(cc.Value) {
+					return true
+				}
+				return in
+			}}).Solve()
+			// a dial that failed stores a nil connection: the return under err != nil right after
+			// the dial needs no cleanup; it is the first return after the store in the same block
+			// region, recognised by the store being the last relevant instruction before it
+			for _, r := range covered.FailingReturns() {
+				direct := false
+				// the failing return is reached straight from the dial's own error test
+				for _, p := range r.Block().Preds {
+					for _, ins := range p.Instrs {
+						if st, ok := ins.(*ssa.Store); ok && st.Addr == cell && isDialResult(st.Val) {
+							direct = true
+						}
+					}
+				}
+				if direct {
+					continue
+				}
+				n++
+				c.Bad("R17.9", k.key(fn, "socket without cleanup"), posOf(r), "a return is reachable after a dial with neither a Close of the dialled socket nor a deferred close registered for it: when the handshake on that socket fails it stays open and is counted by no limit")
+			}
+			n++
+			if len(covered.FailingReturns()) == 0 {
+				c.OK("R17.9", k.key(fn, "cleanup registered for dialled sockets"), fn.Pos(), "every dialled socket is closed or has a deferred close on all paths to a return")
+			}
+		}
+	}
+	c.Floor("R17.9", "connection cells with dial results in package btconn", n, 1)
+}
